@@ -6,7 +6,7 @@ from typing import Any, Dict, List, Optional, Set, Tuple
 
 from ..facts import AnalysisError, norm, FuncInfo
 from ..report import Check
-from ..symexec import SymExec, freeze, show, Path, Event, closure_paths
+from ..symexec import SymExec, freeze, show, Path, Event, closure_paths, is_const
 from .. import opmodel as om
 from .. import ctx as C
 from .. import functab
@@ -98,6 +98,8 @@ def check(chk: Check) -> None:
                     'a path %s' % ('returns normally' if bad and bad[0].outcome[0] != 'raise' else 'raises %s' % show(bad[0].outcome[1]))
                     if bad else 'raises ParserError on all %d path(s)' % len(paths))
 
+    _hooks_need_no_unset_attribute(chk, R1, R2, g, lm)
+
     # --------------------------------------------------------------------- R3
     kw_tokens = sorted(set(lm.reserved.values()))
     used_in: Dict[str, List] = {k: [] for k in kw_tokens}
@@ -179,6 +181,7 @@ def check(chk: Check) -> None:
                 'the budget check raises %s' % show(bad[0].outcome[1]) if bad else ('raises a ParserError subclass' if rs else 'the charge never raises'))
 
     _r7(chk, R7)
+    _r8(chk)
 
 
 def reserved_unused_words(F, lm) -> Set[str]:
@@ -330,3 +333,136 @@ def _r7(chk: Check, R7: str) -> None:
                         chk.ok(R7, '%s.%s' % (mn, n.name), '%s:%d' % (m.rel, n.lineno), 'PLY run-time anchor: no non-Exception raise, no exit call')
     chk.ok(R7, 'modules reachable from parse/eval/list_names', ', '.join(mods),
            'scanned %d modules (detector self-test 3/3)' % len(mods)) if not found else None
+
+
+# ------------------------------------------------------------------------ R8
+TOTAL_BUILTINS = {'len', 'isinstance', 'str', 'repr', 'bool', 'min', 'max', 'type', 'id', 'callable', 'tuple', 'list', 'ascii'}
+TOTAL_STR_METHODS = {'replace', 'strip', 'lstrip', 'rstrip', 'splitlines', 'startswith', 'endswith', 'lower', 'upper', 'title',
+                     'isprintable', 'isascii', 'expandtabs', 'casefold', 'partition', 'rpartition', 'ljust', 'rjust', 'center', 'zfill'}
+NON_STRICT = {'ignore', 'replace', 'backslashreplace', 'xmlcharrefreplace', 'namereplace', 'surrogatepass', 'surrogateescape'}
+
+
+def _r8(chk: Check) -> None:
+    """A language-level failure is reported by *constructing* a ParserError from text the program controls.  If the
+    constructor (or __str__) of the exception class can itself fail on some message, that failure escapes instead."""
+    F = chk.facts
+    R8 = chk.rule('C16.R8', 'raising a ParserError cannot fail: ParserError and its subclasses either define no __init__/'
+                            '__new__/__str__/__repr__ of their own, or those run only operations that are total on '
+                            'arbitrary text (no strict encode/decode, no int()/float(), no %-/format templates made of the message)', floor=2)
+    chk.decided += ['the exception constructors cannot turn a ParserError into something else (R8)']
+    PE = 'smartquery.exceptions.ParserError'
+    classes = [q for q in F.classes if PE in F.mro(q)]
+    if not classes:
+        raise AnalysisError('anchor vanished: %s' % PE)
+    for q in sorted(classes):
+        ci = F.cls(q)
+        where = '%s:%d' % (ci.module.rel, ci.node.lineno)
+        own = [mn for mn in ('__init__', '__new__', '__str__', '__repr__', '__reduce__') if mn in ci.methods]
+        if not own:
+            chk.ok(R8, 'exception class %s' % q, where, 'no constructor or text method of its own: BaseException stores the arguments as they are')
+            continue
+        problems, unknown = [], []
+        n_paths = 0
+        for mn in own:
+            fi = F.func(q + '.' + mn)
+            for p in SymExec(F, fi).run():
+                n_paths += 1
+                if p.outcome[0] == 'raise' and not any(e.kind == 'raise' and e.d.get('implicit') for e in p.events):
+                    problems.append('%s raises %s' % (mn, show(p.outcome[1])))
+                for e in p.events:
+                    if e.kind in ('load_sub',) and not (isinstance(freeze(e.index), tuple) and freeze(e.index)[:1] == ('slice',)):
+                        idx = freeze(e.index)
+                        if not is_const(idx) or not isinstance(idx[1], int):
+                            unknown.append('`%s` (a lookup that can fail)' % e.text())
+                    if e.kind == 'binop' and e.op == '%' and not is_const(freeze(e.left)):
+                        problems.append('`%s` uses text the program controls as a %%-template' % e.text())
+                    if e.kind != 'call' or e.d.get('inlined'):
+                        continue
+                    f = freeze(e.func)
+                    kw = dict(freeze(e.kwargs))
+                    if isinstance(f, tuple) and f and f[0] == 'attr' and f[2] in ('encode', 'decode'):
+                        errs = kw.get('errors') or (freeze(e.args)[1] if len(e.args) > 1 else None)
+                        if not (is_const(errs) and errs[1] in NON_STRICT):
+                            problems.append('`%s` is a strict %s: it raises Unicode%sError on text that is not well-formed '
+                                            '(a lone surrogate in a name, key or string of the program)' % (
+                                                e.text(), f[2], 'Encode' if f[2] == 'encode' else 'Decode'))
+                        continue
+                    if isinstance(f, tuple) and f and f[0] == 'attr' and f[2] in ('format', 'format_map') and not is_const(f[1]):
+                        problems.append('`%s` uses text the program controls as a format template' % e.text())
+                        continue
+                    if isinstance(f, tuple) and f[:2] == ('ref', 'builtin') and f[2] in ('int', 'float', 'ord', 'chr', 'bytes', 'next', 'getattr'):
+                        problems.append('`%s`: %s() is not defined for every message' % (e.text(), f[2]))
+                        continue
+                    if isinstance(f, tuple) and f[:2] == ('ref', 'builtin') and f[2] in TOTAL_BUILTINS:
+                        continue
+                    if isinstance(f, tuple) and f and f[0] == 'attr' and isinstance(f[1], tuple) and f[1][:1] == ('super',):
+                        continue
+                    if isinstance(f, tuple) and f and f[0] == 'attr' and f[2] in TOTAL_STR_METHODS:
+                        continue
+                    if isinstance(f, tuple) and f and f[0] == 'attr' and f[2] == 'join' and is_const(f[1]):
+                        continue
+                    if e.d.get('ctor'):
+                        continue
+                    unknown.append('`%s`' % e.text())
+        if problems:
+            chk.bad(R8, 'exception class %s' % q, where, '; '.join(sorted(set(problems))[:3]))
+        elif unknown:
+            chk.unrec(R8, 'exception class %s' % q, where, 'cannot tell whether %s can fail' % ', '.join(sorted(set(unknown))[:3]))
+        else:
+            chk.ok(R8, 'exception class %s' % q, where, '%s: %d path(s), total operations only' % (', '.join(own), n_paths))
+
+
+def _hooks_need_no_unset_attribute(chk: Check, R1: str, R2: str, g, lm) -> None:
+    """The error hooks run on the shared lexer object.  An attribute they read that PLY does not create and that an entry
+    point does not assign before lexing does not exist on a fresh parser: the hook then dies with AttributeError and the
+    lexical / syntax error is not reported as ParserError."""
+    F = chk.facts
+    from .c11 import lexer_attr_uses, _is_ply_call, PARSER
+    lexmod = F.modules.get('smartquery.ply.lex')
+    ply_attrs: Set[str] = set()
+    if lexmod is not None:
+        for n in lexmod.tree.body:
+            if isinstance(n, ast.ClassDef) and n.name == 'Lexer':
+                for st in ast.walk(n):
+                    if isinstance(st, ast.Attribute) and isinstance(st.ctx, ast.Store) and isinstance(st.value, ast.Name) and st.value.id == 'self':
+                        ply_attrs.add(st.attr)
+    if not ply_attrs:
+        raise AnalysisError('anchor vanished: ply.lex.Lexer attribute assignments')
+    init = F.cls(PARSER).methods.get('__init__')
+    if init is not None:            # attributes the parser's constructor creates on its lexer exist from then on
+        for attr, kinds in lexer_attr_uses(init, 'self.lex').items():
+            if 'store' in kinds:
+                ply_attrs.add(attr)
+    hooks = []
+    if lm.spec.error_func is not None:
+        hooks.append((R2, lm.spec.module.name + '.t_error', lm.spec.error_func, ('parse', 'list_names'), lm.spec.module))
+    if g.error_func and g.error_func in g.module.defs:
+        hooks.append((R1, g.module.name + '.' + g.error_func, g.module.defs[g.error_func], ('parse',), g.module))
+    assigned: Dict[str, Optional[Set[str]]] = {}
+    for mn in ('parse', 'list_names'):
+        q = PARSER + '.' + mn
+        if q not in F.functions:
+            continue
+        fi = F.func(q)
+        selft = ('param', om.self_param(F, q))
+        lex = ('attr', selft, 'lex')
+        common_set: Optional[Set[str]] = None
+        for p in SymExec(F, fi).run():
+            runs = [e for e in p.events if e.kind == 'call' and _is_ply_call(e, selft) and freeze(e.func)[2] in ('token', 'parse')]
+            if not runs:
+                continue
+            first = p.events.index(runs[0])
+            here = {e.attr for e in p.events[:first] if e.kind == 'store_attr' and freeze(e.obj) == lex}
+            common_set = here if common_set is None else (common_set & here)
+        assigned[mn] = common_set
+    for R, name, node, entries, mod in hooks:
+        loads = {a for a, kinds in lexer_attr_uses(node, 'param.lexer').items() if 'load' in kinds}
+        problems = []
+        for a in sorted(loads - ply_attrs):
+            for mn in entries:
+                if assigned.get(mn) is not None and a not in assigned[mn]:
+                    problems.append('reads lexer.%s, which SqParser.%s does not assign before lexing and PLY does not create: on a '
+                                    'parser that has not run the other entry point the hook raises AttributeError, not ParserError' % (a, mn))
+        chk.require(not problems, R, name + ' :: lexer attributes it reads', '%s:%d' % (mod.rel, node.lineno),
+                    '; '.join(problems) or ('reads %s: all created by PLY or assigned by every entry point that can reach the hook'
+                                            % (', '.join(sorted(loads)) or 'no lexer attribute')))
